@@ -59,20 +59,22 @@ def run(tier, seed, replay=None):
                 for w, obs, _, _ in sel:
                     model_cases.append((f"engine_obs3 {G.to_coq(e)} {coq_list(z(x) for x in w)}", obs[:3],
                                         {"pattern": G.show(e), "word": list(w)}))
-    # ---- symbols of mixed types that print alike (1 and "1", 1.5 and "1.5"): distinct symbols must stay distinct
+    # ---- symbols of mixed types that print alike (1 and "1", 1.5 and "1.5") or whose hashes collide (-1 and -2, 0 and
+    #      2**61-1): distinct symbols must stay distinct
     from codelimit.common.gsm import matcher
     rng = chk.rng
-    for _ in range(400 if tier == "quick" else 8000):
+    for it in range(600 if tier == "quick" else 12000):
         e = G.random_expr(rng, rng.randint(2, 9), atoms=[1, 2, 3, 4, 5, 6])
+        symmap = G.MIXED if it % 2 == 0 else G.COLLIDING
         for _ in range(6):
             w = tuple(rng.choice([1, 2, 3, 4, 5, 6]) for _ in range(rng.randint(0, 6)))
-            obs, _ = G.impl_obs(e, w, G.MIXED)
+            obs, _ = G.impl_obs(e, w, symmap)
             sm, sp = G.spec_match(e, w), G.spec_shortest_prefix(e, w)
             chk.evaluations += 1
             chk.count("mixed-type symbols")
             if obs[0] != [0, sm] or obs[1] != [0, sm] or obs[2] != [0, [] if sp is None else [sp]]:
-                chk.violation({"pattern": G.show(e), "expr": e, "word": [repr(G.MIXED[x]) for x in w]},
-                              f"pattern {G.show(e)} over the symbols {G.MIXED} on {[G.MIXED[x] for x in w]}: match/nfa_match/starts_with "
+                chk.violation({"pattern": G.show(e), "expr": e, "word": [repr(symmap[x]) for x in w]},
+                              f"pattern {G.show(e)} over the symbols {symmap} on {[symmap[x] for x in w]}: match/nfa_match/starts_with "
                               f"-> {obs[:3]}, language membership {sm}, shortest prefix {sp}")
             elif sm:
                 chk.nontrivial.add(("mixed", e, w))
